@@ -97,8 +97,39 @@ def match_close(m, i, open_ch='{', close_ch='}'):
 
 
 def norm(s):
-    """whitespace-insensitive fingerprint text"""
+    """whitespace-insensitive text, for locating anchors"""
     return re.sub(r'\s+', '', s)
+
+
+def norm_fp(s):
+    """fingerprint text: whitespace-insensitive OUTSIDE string / char literals (a blank inside "..." is behaviour)"""
+    out = []
+    i, n = 0, len(s)
+    while i < n:
+        c = s[i]
+        if c == '"' or (c == 'r' and re.match(r'r#*"', s[i:]) and (i == 0 or not (s[i - 1].isalnum() or s[i - 1] == '_'))):
+            if c == 'r':
+                m = re.match(r'r(#*)"', s[i:])
+                close = '"' + m.group(1)
+                j = s.find(close, i + len(m.group(0)))
+                j = n if j < 0 else j + len(close)
+            else:
+                j = i + 1
+                while j < n and s[j] != '"':
+                    j += 2 if s[j] == '\\' else 1
+                j = min(n, j + 1)
+            out.append(s[i:j])
+            i = j
+        elif c == "'" and re.match(r"'(\\.|[^\\'])'", s[i:]):
+            m = re.match(r"'(\\.|[^\\'])'", s[i:])
+            out.append(m.group(0))
+            i += len(m.group(0))
+        elif c.isspace():
+            i += 1
+        else:
+            out.append(c)
+            i += 1
+    return ''.join(out)
 
 
 def strip_test_modules(src):
